@@ -272,8 +272,8 @@ class ASL_API Var
 	Var(int x): _type(INT), _i(x){}
 	Var(float x): _type(FLOAT) {_d=x;}
 	Var(unsigned x);
-	Var(long x) : _type(INT), _i((int)x){}
-	Var(unsigned long x) : _type(INT), _i((int)x){}
+	Var(long x) : _type(INT), _i((int)x) { if ((long)_i != x) { _type = NUMBER; _d = (double)x; } } // long can be 64 bits
+	Var(unsigned long x) : _type(INT), _i((int)x) { if (_i < 0 || (unsigned long)_i != x) { _type = NUMBER; _d = (double)x; } }
 	Var(Long x);
 	Var(ULong x);
 	Var(bool x);
@@ -347,8 +347,8 @@ class ASL_API Var
 	void operator=(ULong x) { (*this) = (Long)x; }
 	void operator=(float x);
 	void operator=(unsigned x);
-	void operator=(long x) { *this = (int)x; }
-	void operator=(unsigned long x) { *this = (unsigned int)x; }
+	void operator=(long x) { if ((long)(int)x == x) *this = (int)x; else *this = (Long)x; }
+	void operator=(unsigned long x) { if ((unsigned long)(unsigned int)x == x) *this = (unsigned int)x; else *this = (ULong)x; }
 	void operator=(bool x);
 	void operator=(const char* x);
 	void operator=(const String& x);
